@@ -1,6 +1,9 @@
 use super::{Entry, Key};
 use core::hash::{BuildHasher, Hash};
+#[cfg(not(json_syntax_verif))]
 use hashbrown::hash_map::DefaultHashBuilder;
+#[cfg(json_syntax_verif)]
+use verif::VerifHashBuilder as DefaultHashBuilder;
 use hashbrown::raw::RawTable;
 
 pub trait Equivalent<K: ?Sized> {
@@ -245,6 +248,86 @@ impl<S: BuildHasher> IndexMap<S> {
 
 	pub fn clear(&mut self) {
 		self.table.clear()
+	}
+}
+
+/// Verification hooks (only compiled with `--cfg json_syntax_verif`).
+#[cfg(json_syntax_verif)]
+pub mod verif {
+	use core::hash::{BuildHasher, Hasher};
+	use core::sync::atomic::{AtomicU8, Ordering};
+
+	/// Hash mode used by every index created from now on:
+	/// `0` = ahash with fixed seeds, `1` = constant hash, `2` = two-class hash.
+	pub static HASH_MODE: AtomicU8 = AtomicU8::new(0);
+
+	type Inner = hashbrown::hash_map::DefaultHashBuilder;
+
+	#[derive(Clone)]
+	pub struct VerifHashBuilder {
+		mode: u8,
+		inner: Inner,
+	}
+
+	impl Default for VerifHashBuilder {
+		fn default() -> Self {
+			Self {
+				mode: HASH_MODE.load(Ordering::Relaxed),
+				inner: Inner::with_seeds(1, 2, 3, 4),
+			}
+		}
+	}
+
+	pub struct VerifHasher<H> {
+		mode: u8,
+		inner: H,
+	}
+
+	impl<H: Hasher> Hasher for VerifHasher<H> {
+		fn write(&mut self, bytes: &[u8]) {
+			self.inner.write(bytes)
+		}
+
+		fn finish(&self) -> u64 {
+			match self.mode {
+				0 => self.inner.finish(),
+				1 => 0,
+				_ => self.inner.finish() & 1,
+			}
+		}
+	}
+
+	impl BuildHasher for VerifHashBuilder {
+		type Hasher = VerifHasher<<Inner as BuildHasher>::Hasher>;
+
+		fn build_hasher(&self) -> Self::Hasher {
+			VerifHasher {
+				mode: self.mode,
+				inner: self.inner.build_hasher(),
+			}
+		}
+	}
+
+	/// Content of one bucket of the index: slot, representative, other positions.
+	pub type BucketDump = (usize, usize, Vec<usize>);
+
+	impl<S> super::IndexMap<S> {
+		/// Read-only dump: number of buckets, capacity, and every bucket in table order.
+		pub fn verif_dump(&self) -> (usize, usize, Vec<BucketDump>) {
+			let mut buckets = Vec::new();
+			unsafe {
+				for bucket in self.table.iter() {
+					let indexes = bucket.as_ref();
+					buckets.push((
+						self.table.bucket_index(&bucket),
+						indexes.rep,
+						indexes.other.clone(),
+					));
+				}
+			}
+			buckets.sort();
+			(self.table.buckets(), self.table.capacity(), buckets)
+		}
 	}
 }
 
